@@ -76,6 +76,15 @@ impl Tok {
     fn to_lowercase(&self) -> (r: Tok)
         ensures r == self.lower(), r.empty() == self.empty(),
     { unimplemented!() }
+    /// `s.as_bytes()[i]` (not used by the code today; present so that an edit validating names byte-wise is judged):
+    /// indexing PANICS past the end -- in particular `[0]` on the empty token the parser returns at end of input
+    #[verifier::external_body]
+    fn byte_at(&self, i: usize) -> (r: u8)
+        requires !self.empty(), i == 0,
+    { unimplemented!() }
+    /// `s.bytes().any(..)` / `s.chars().all(..)` with some predicate: nothing known about the answer
+    #[verifier::external_body]
+    fn any_char_unknown(&self) -> (b: bool) { unimplemented!() }
     /// `!s.chars().next().unwrap_or(' ').is_alphabetic() || s.chars().any(|c| !c.is_alphanumeric())`
     /// (the empty string is a bad identifier: ' ' is not alphabetic; unwrap_or cannot panic)
     #[verifier::external_body]
@@ -243,6 +252,10 @@ pub open spec fn n_values(ft: FieldType) -> int {
         _ => 0,
     }
 }
+
+/// `u8::is_ascii_alphabetic` and friends: nothing known about the answer
+#[verifier::external_body]
+fn u8_class(b: u8) -> (r: bool) { unimplemented!() }
 
 impl DeclareName {
 fn parse(parser: &mut VParser) -> (r: Result<Self, ParseError>)
